@@ -79,8 +79,8 @@ Proof.
 Qed.
 
 (* the two serialized texts of an original and its new version denote strictly increasing instants *)
-Theorem nv_strict_text_lemma : forall T nm c d ch now d' v xo xn, good_ver v -> NoDup (keys d) -> NoDup (keys ch) ->
-  check_versionable T c d = Ok v -> new_version T nm c d ch now = Ok d' ->
+Theorem nv_strict_text_lemma : forall T nm cp ck c d ch now d' v xo xn, good_ver v -> NoDup (keys d) -> NoDup (keys ch) ->
+  check_versionable T c d = Ok v -> new_version T nm cp ck c d ch now = Ok d' ->
   version_time d = Some xo -> version_time d' = Some xn -> value_ok v xo -> value_ok v xn ->
   (forall t, ser_value nm v (Some xo) = Some t -> in_range t = true) ->
   (forall t, ser_value nm v (Some xn) = Some t -> in_range t = true) ->
@@ -89,8 +89,8 @@ Theorem nv_strict_text_lemma : forall T nm c d ch now d' v xo xn, good_ver v -> 
     write nm Pad4 PMilli (pconstraint_of v) io = Ok txt_o /\ write nm Pad4 PMilli (pconstraint_of v) i_n = Ok txt_n /\
     spec_read txt_o = Some rd_o /\ spec_read txt_n = Some rd_n /\ denotes rd_o a /\ denotes rd_n b /\ a < b.
 Proof.
-  intros T nm c d ch now d' v xo xn GV ND NC CV H VO VN OKo OKn Ro Rn.
-  destruct (nv_strict_lemma T nm c d ch now d' v GV ND NC CV H) as (a & b & A & B & L).
+  intros T nm cp ck c d ch now d' v xo xn GV ND NC CV H VO VN OKo OKn Ro Rn.
+  destruct (nv_strict_lemma T nm cp ck c d ch now d' v GV ND NC CV H) as (a & b & A & B & L).
   rewrite VO in A. rewrite VN in B.
   destruct (ser_text_lemma nm v xo a GV OKo A (Ro a A)) as (io & to & ro & I1 & W1 & S1 & D1).
   destruct (ser_text_lemma nm v xn b GV OKn B (Rn b B)) as (i_n & tn & rn & I2 & W2 & S2 & D2).
